@@ -9,6 +9,7 @@
 (* A program *version* is                                                  *)
 (*   [prog     |-> an LSem program (Den ignores plan annotations),         *)
 (*    grounded |-> Seq([p |-> predicate, t |-> table name in the file])]   *)
+(* and the operators below take it prepared: v = Prep(version).            *)
 (* A *file* is a function  table name -> bag of rows  (a sequence; "$" is  *)
 (* the sentinel key that keeps DOMAIN a set of strings).  A table that is  *)
 (* not in the DOMAIN does not exist.                                       *)
@@ -18,9 +19,7 @@ EXTENDS LSem
 EmptyFile == ("$" :> <<>>)
 TablesOf(file) == (DOMAIN file) \ {"$"}
 
-GPreds(v) == {v.grounded[i].p : i \in 1..Len(v.grounded)}
-TableOf(v, q) == v.grounded[CHOOSE i \in 1..Len(v.grounded) : v.grounded[i].p = q].t
-VPM(v) == PredMap(v.prog)
+RawGPreds(raw) == {raw.grounded[i].p : i \in 1..Len(raw.grounded)}
 
 (* What the query of p reads: the ungrounded predicates below p (they are  *)
 (* part of p's own query) and the grounded ones it meets first (those are  *)
@@ -30,11 +29,28 @@ LocalGo(pm, G, seen, frontier) ==
   IF frontier = {} THEN seen
   ELSE LET nxt == (UNION {NeedsOf(pm, q) : q \in frontier}) \ seen
        IN LocalGo(pm, G, seen \cup nxt, nxt \ G)
-Local(v, p) == LocalGo(VPM(v), GPreds(v), {}, {p})
+
+(* A version prepared for evaluation: the dependency facts every operator   *)
+(* below needs, computed once per version (TLC does not memoise operators; *)
+(* Ground.tla keeps the prepared versions in a constant).                  *)
+(*   local[p]  what p's own query reads (see LocalGo)                      *)
+(*   gdeps[p]  every grounded predicate below p (through grounded ones too) *)
+Prep(raw) ==
+  LET pm == PredMap(raw.prog)
+      G == RawGPreds(raw)
+      mat == {p \in DOMAIN pm : ~pm[p].inline}
+  IN [prog |-> raw.prog, grounded |-> raw.grounded, pm |-> pm, G |-> G,
+      local |-> [p \in mat |-> LocalGo(pm, G, {}, {p})],
+      gdeps |-> [p \in mat |-> (DepsT(pm, {}, {p}) \cap G) \ {p}]]
+
+GPreds(v) == v.G
+TableOf(v, q) == v.grounded[CHOOSE i \in 1..Len(v.grounded) : v.grounded[i].p = q].t
+VPM(v) == v.pm
+Local(v, p) == v.local[p]
 
 (* The grounded predicates p reads as tables / all grounded ones below p. *)
 DirectG(v, p) == Local(v, p) \cap GPreds(v)
-GDeps(v, p) == (DepsT(VPM(v), {}, {p}) \cap GPreds(v)) \ {p}
+GDeps(v, p) == v.gdeps[p]
 WrittenTables(v, p) == {TableOf(v, q) : q \in GDeps(v, p)}
 
 (* The bag p evaluates to when every grounded predicate it reads is taken  *)
@@ -73,6 +89,22 @@ SameBag(a, b) ==
   /\ Len(a) = Len(b)
   /\ \A r \in Range(a) :
        Cardinality({j \in 1..Len(a) : a[j] = r}) = Cardinality({j \in 1..Len(b) : b[j] = r})
+(* Expected bag (may hold values with several acceptable observations:     *)
+(* unordered lists, ties, rationals) against an observed one.  When the     *)
+(* expected rows are plain values, matching is equality and the bags are    *)
+(* compared by counting (LSem!BagMatch backtracks: exponential on a         *)
+(* mismatch among many equal rows).                                         *)
+RECURSIVE PlainV(_)
+PlainV(v) ==
+  CASE v[1] \in {"m", "any", "q"} -> FALSE
+    [] v[1] = "l" -> \A i \in 1..Len(v[2]) : PlainV(v[2][i])
+    [] v[1] = "r" -> \A i \in 1..Len(v[2]) : PlainV(v[2][i][2])
+    [] OTHER -> TRUE
+PlainRows(rows) == \A i \in 1..Len(rows) : \A f \in DOMAIN rows[i] : PlainV(rows[i][f])
+BagOk(es, os) ==
+  /\ Len(es) = Len(os)
+  /\ IF PlainRows(es) THEN SameBag(es, os) ELSE BagMatch(es, os)
+
 SameFile(f, g) == DOMAIN f = DOMAIN g /\ \A t \in DOMAIN f : SameBag(f[t], g[t])
 
 -----------------------------------------------------------------------------
@@ -83,27 +115,33 @@ SameFile(f, g) == DOMAIN f = DOMAIN g /\ \A t \in DOMAIN f : SameBag(f[t], g[t])
 (* written before the tables it reads were refreshed fails this, and so     *)
 (* does a table that was not rewritten), the returned rows must be what p   *)
 (* evaluates to against the final file, and nothing else changes.           *)
-(* Each clause is named; the first failing one is reported.                 *)
+(* Each clause is named; all failing ones are reported, in this order.      *)
+(* When a table p reads directly is missing, the returned rows cannot be    *)
+(* judged against the file; they are then judged against the bag p denotes  *)
+(* (which is what they must be anyway when all tables are faithful).        *)
 RunClauses(v, p, pre, post, out, dev) ==
   LET W == GDeps(v, p)
       wt == {TableOf(v, q) : q \in W}
       missing == {q \in W : TableOf(v, q) \notin DOMAIN post}
+      CanJudge(q) == \A g \in DirectG(v, q) : TableOf(v, g) \in DOMAIN post
       unfaithful == {q \in W \ missing :
-                       ~BagMatch(EvalAgainst(v, q, post, dev), post[TableOf(v, q)])}
+                       IF CanJudge(q)
+                       THEN ~BagOk(EvalAgainst(v, q, post, dev), post[TableOf(v, q)])
+                       ELSE ~BagOk(DenDev(v.prog, dev)[q], post[TableOf(v, q)])}
       touched == {t \in (TablesOf(pre) \cup TablesOf(post)) \ wt :
                     \/ t \notin DOMAIN pre
                     \/ t \notin DOMAIN post
                     \/ ~SameBag(pre[t], post[t])}
-  IN IF missing # {} THEN [clause |-> "table_missing", on |-> missing]
-     ELSE IF unfaithful # {} THEN [clause |-> "table_unfaithful", on |-> unfaithful]
-     ELSE IF touched # {}
-     THEN [clause |-> IF p \in GPreds(v) /\ TableOf(v, p) \in touched
-                      THEN "print_wrote" ELSE "other_table_touched",
-           on |-> touched]
-     ELSE IF ~BagMatch(EvalAgainst(v, p, post, dev), out)
-     THEN [clause |-> "rows", on |-> {p}]
-     ELSE [clause |-> "ok", on |-> {}]
+      own == IF p \in GPreds(v) THEN {TableOf(v, p)} \cap touched ELSE {}
+      rowsOk == IF CanJudge(p) THEN BagOk(EvalAgainst(v, p, post, dev), out)
+                ELSE BagOk(DenDev(v.prog, dev)[p], out)
+  IN (IF missing # {} THEN <<[clause |-> "table_missing", on |-> missing]>> ELSE <<>>)
+     \o (IF unfaithful # {} THEN <<[clause |-> "table_unfaithful", on |-> unfaithful]>> ELSE <<>>)
+     \o (IF own # {} THEN <<[clause |-> "print_wrote", on |-> own]>> ELSE <<>>)
+     \o (IF touched \ own # {}
+         THEN <<[clause |-> "other_table_touched", on |-> touched \ own]>> ELSE <<>>)
+     \o (IF ~rowsOk THEN <<[clause |-> "rows", on |-> {p}]>> ELSE <<>>)
 
-LegalRun(v, p, pre, post, out, dev) == RunClauses(v, p, pre, post, out, dev).clause = "ok"
+LegalRun(v, p, pre, post, out, dev) == RunClauses(v, p, pre, post, out, dev) = <<>>
 
 =============================================================================
